@@ -81,12 +81,12 @@ func orderKeysEqual(q *h.Query, a, b *h.Result) string {
 			av, aok := a.Rows[i].Vals[k.Field]
 			bv, bok := b.Rows[i].Vals[k.Field]
 			if aok && bok && !h.FloatEq(av, bv) {
-				return fmt.Sprintf("row %d: ORDER BY key %s is %v in-process and %v over RPC", i, k.Field, av, bv)
+				return fmt.Sprintf("row %d: ORDER BY key %s is %v on one side and %v on the other", i, k.Field, av, bv)
 			}
 			ad, adok := a.Rows[i].KeyMap[k.Field]
 			bd, bdok := b.Rows[i].KeyMap[k.Field]
 			if !aok && !bok && adok && bdok && h.CanonGo(ad) != h.CanonGo(bd) {
-				return fmt.Sprintf("row %d: ORDER BY key %s is %v in-process and %v over RPC", i, k.Field, ad, bd)
+				return fmt.Sprintf("row %d: ORDER BY key %s is %v on one side and %v on the other", i, k.Field, ad, bd)
 			}
 		}
 	}
